@@ -321,7 +321,7 @@ def run(ctx):
     ctx.extra.update(tail.g.stats())
 
 
-CLAIM = {'text': "Decides four structural clauses behind 'every run is a well-formed stream': every exit path of RunEngine._run, including CancelledError and Exception edges, completes the loop that emits RunStop for every open run; RunBundler.run_is_open is a two-state typestate with one start site and one guarded stop site; every run-keyed command handler rejects a missing run before touching a bundler; every emitted document derives from the run's own event_model compose bundle. Today's tree has three F-1 known findings (cancellation inside the cleanup). uid uniqueness and schema validity of device-supplied assets are not decided.", 'technique': 'must-pass-through on a CFG with exceptional edges; typestate of run_is_open; guard dominance; reaching-definitions provenance'}
+CLAIM = {'text': "Decides four structural clauses behind 'every run is a well-formed stream': every exit path of RunEngine._run, including CancelledError and Exception edges, completes the loop that emits RunStop for every open run; RunBundler.run_is_open is a two-state typestate with one start site and one guarded stop site; every run-keyed command handler rejects a missing run before touching a bundler; every emitted document derives from the run's own event_model compose bundle. Also: every control-exception class carries an exit_status RunStop accepts (otherwise run_wrapper's close fails after the stop was latched). Today's tree has three F-1 known findings (cancellation inside the cleanup). uid uniqueness and schema validity of device-supplied assets are not decided.", 'technique': 'must-pass-through on a CFG with exceptional edges; typestate of run_is_open; guard dominance; reaching-definitions provenance'}
 
 
 RE = "run_engine.py"
